@@ -31,7 +31,11 @@ meta["confirmed"] = meta["demo_without_change"] == 0 and meta["demo_with_change"
 print("confirmation:", {k: meta[k] for k in ("demo_without_change", "demo_with_change", "tests_with_change", "confirmed")})
 if meta["confirmed"]:
     assert sh("git -C /repo status --porcelain --untracked-files=no").stdout.strip() == "", "/repo not clean"
-    r = sh(f"git -C /repo apply {patch}"); assert r.returncode == 0, r.stderr
+    r = sh(f"git -C /repo apply {patch}")
+    if r.returncode:
+        r = sh(f"patch -p1 -F3 --no-backup-if-mismatch -d /repo < {patch}"); meta["applied_with_fuzz"] = True
+        if r.returncode: sh("git -C /repo checkout -- .")
+    assert r.returncode == 0, r.stdout + r.stderr
     try:
         for c in checks:
             for seed in (0, 1):
